@@ -16,6 +16,8 @@ type Ctx struct {
 	Routes []Route
 	R      *Report
 	Tier   string
+	// DepthBonus is added to every caller-chain depth bound (thorough tier)
+	DepthBonus int
 }
 
 type CheckFunc func(c *Ctx)
@@ -46,6 +48,13 @@ func (p *Prog) methodOf(t types.Type, name string) *ssa.Function {
 // NewCtx builds the shared analysis context; errors are fatal for every property.
 func NewCtx(p *Prog, r *Report, tier string) (*Ctx, error) {
 	c := &Ctx{P: p, F: NewFacts(), R: r, Tier: tier}
+	if tier == "thorough" {
+		// larger bounds: fewer widenings of the fact sets, longer caller chains before giving up
+		c.F.Cap = 256
+		c.DepthBonus = 4
+	}
+	r.Extra["dnf_cap"] = c.F.Cap
+	r.Extra["caller_depth_bonus"] = c.DepthBonus
 	c.G = BuildCallGraph(p)
 	routes, err := p.Routes()
 	if err != nil {
